@@ -177,7 +177,7 @@ def run(ctx, binp):
                 break
             i -= 1
         scen.reverse()
-        trigger = (scen[-1].get("ops") or [{}])[-1].get("op") if scen[-1]["ev"] == "Ops" else "Start"
+        trigger = (scen[-1].get("ops") or [{"op": "Start"}])[-1].get("op")  # no ops: the observation right after Start
         ctx.violation(sig_of("buf-random", v.get("want"), v.get("got"), trigger, {"lim": scen[0].get("lim")}),
                       replay={"scenario": scen, "want": v.get("want"), "got": v.get("got")})
     ctx.assumptions += [
